@@ -297,6 +297,13 @@ def run_driver(h, cfg):
             else:
                 Xw0 = Xc @ np.asarray(w0[:p]) + b0
         if (meta.get('positive') or meta.get('box') is not None) and not cfg.get('infeasible_start'):
+            if h.mode != 'sym' and h.unpatched:
+                # random confirmation search: draw feasible warm starts
+                w0 = np.array(w0, dtype=float)
+                w0[:p] = np.abs(w0[:p])
+                if meta.get('box') is not None:
+                    w0[:p] = np.minimum(w0[:p], float(meta['box']))
+                Xw0 = Xc @ w0[:p] + (w0[-1] if fit_intercept else 0.0)
             for j in range(p):
                 h.assume(w0[j] >= 0)
                 if meta.get('box') is not None:
